@@ -1,24 +1,18 @@
 (* Correspondence for C13: the event file of a real daemon process, translated to RT events, plus the
    observed exit status. *)
 From Coq Require Import List Arith Bool.
-From Cobald Require Import model.RT model.Daemon.
+From Cobald Require Import model.RT model.Daemon model.DaemonCtor.
 Import ListNotations.
 
 Record case := mkCase { k_holds : bool; k_trace : list event; k_exit_zero : bool }.
 
 Definition check (c : case) : bool :=
-  match drun (k_holds c) dinit (k_trace c) with
-  | Some d => quiescent (d_rt d) && Bool.eqb (exit_status d =? 0) (k_exit_zero c)
+  match crun (k_holds c) cinit (k_trace c) with
+  | Some cs => quiescent (d_rt (c_d cs)) && Bool.eqb (exit_status (c_d cs) =? 0) (k_exit_zero c)
   | None => false
   end.
 
-Fixpoint drun_prefix (holds : bool) (d : dstate) (tr : list event) : dstate :=
-  match tr with
-  | [] => d
-  | e :: r => match dstep holds d e with Some d' => drun_prefix holds d' r | None => d end
-  end.
-
 Definition diagnose (c : case) : option nat * list oblig * nat :=
-  (dfirst_reject (k_holds c) dinit (k_trace c) 0,
-   owed (d_rt (drun_prefix (k_holds c) dinit (k_trace c))),
-   exit_status (drun_prefix (k_holds c) dinit (k_trace c))).
+  (cfirst_reject (k_holds c) cinit (k_trace c) 0,
+   owed (d_rt (c_d (crun_prefix (k_holds c) cinit (k_trace c)))),
+   exit_status (c_d (crun_prefix (k_holds c) cinit (k_trace c)))).
